@@ -422,12 +422,13 @@ theorem reach_dict {kind k vc} (hk : TreesGood (colC E k)) (hv : TreesGood (colC
         · cases h
         · cases h
 
-theorem reach_seq {kind vc} (hg : GoodF (tryC E vc) (colC E vc)) (hin : TreesGood (colC E vc)) :
-    TreesGood (colC E (.seq kind vc)) := by
-  intro v t h; simp only [colC] at h
+/-- the sequence loop for ANY element pair (shared by `.seq kind c` and the list member of `.vol c`) -/
+theorem reach_seqWith {t c} (exp kind : String) (hg : GoodF t c) (hin : TreesGood c) :
+    TreesGood (seqColWith exp t c kind) := by
+  intro v t h; simp only [seqColWith] at h
   split at h
   · leaf_or_absurd h
-  · cases hce : convertEach (tryC E vc) (colC E vc) v.seqItems 0 with
+  · cases hce : convertEach _ c v.seqItems 0 with
     | error e => rw [hce] at h; cases h
     | ok p =>
       obtain ⟨vals, ch⟩ := p
@@ -437,6 +438,35 @@ theorem reach_seq {kind vc} (hg : GoodF (tryC E vc) (colC E vc)) (hin : TreesGoo
       split at h
       · cases h; exact good_product h1 fun e he => (h2 e he).1
       · split at h <;> leaf_or_absurd h
+
+theorem reach_seq {kind vc} (hg : GoodF (tryC E vc) (colC E vc)) (hin : TreesGood (colC E vc)) :
+    TreesGood (colC E (.seq kind vc)) := by
+  intro v t h; simp only [colC] at h
+  exact reach_seqWith _ kind hg hin v t h
+
+/-- `ValueOrList[T]`: a sum of the two members' own (good) trees -/
+theorem reach_vol {vc} (hg : GoodF (tryC E vc) (colC E vc)) (hin : TreesGood (colC E vc)) :
+    TreesGood (colC E (.vol vc)) := by
+  intro v t h; simp only [colC] at h
+  have hcs : TreesGoods [colC E vc,
+      seqColWith (expected E (.seq "list" vc) false) (tryC E vc) (colC E vc) "list"] := by
+    intro c hc
+    rcases List.mem_cons.1 hc with rfl | hc
+    · exact hin
+    · rcases List.mem_cons.1 hc with rfl | hc
+      · exact reach_seqWith _ "list" hg hin
+      · cases hc
+  cases hs : sumCol [tryC E vc, seqTryWith (tryC E vc) "list"]
+      [colC E vc, seqColWith (expected E (.seq "list" vc) false) (tryC E vc) (colC E vc) "list"] v with
+  | interrupt => rw [hs] at h; cases h
+  | leak e => rw [hs] at h; cases h
+  | ok o =>
+    rw [hs] at h
+    cases o with
+    | none => cases h
+    | some l =>
+      cases h
+      exact good_sum (sumCol_good hcs hs)
 
 theorem reach_cond {inner c fmt} (hin : TreesGood (colC E inner)) : TreesGood (colC E (.cond inner c fmt)) := by
   intro v t h; simp only [colC] at h
